@@ -106,6 +106,55 @@ def run_table(ctx, config, body):
                                   'got': got2.describe(m)})
 
 
+def run_redefine(ctx, config, how):
+    """History: enforce an unknown name, redefine the default rule in place,
+    enforce again; the second decision follows the *current* definition."""
+    from oslo_policy import _parser
+    common.set_ctx(ctx)
+    common.register_leaves()
+    conf = common.new_conf()
+    ctor = None
+    dname = 'default'
+    if config == 'ctor-name':
+        ctor = dname = 'dflt'
+    elif config == 'option-name':
+        conf.set_override('policy_default_rule', 'dflt', group='oslo_policy')
+        dname = 'dflt'
+    rules = {'a': _parser.parse_rule('sym:a'),
+             dname: _parser.parse_rule('sym:d1')}
+    enf = common.mk_enforcer(rules=dict(rules), default_rule=ctor, conf=conf)
+    first = common.decision(ctx, enf, 'zzz', {})
+    common.require_decision(ctx, first, _leaf('d1'), 'redefine:first',
+                            detail={'config': config})
+    new = _parser.parse_rule('sym:d2')
+    if how == 'set_rules-update':
+        enf.set_rules({dname: new}, overwrite=False)
+    elif how == 'item-assignment':
+        enf.rules[dname] = new
+    elif how == 'delete':
+        del enf.rules[dname]
+    else:
+        enf.set_rules({'a': rules['a'], dname: new}, overwrite=True)
+    want = z3.BoolVal(False) if how == 'delete' else _leaf('d2')
+    for q in ('zzz', 'yyy', dname if how != 'delete' else 'zzz'):
+        got = common.decision(ctx, enf, q, {})
+        ctx.observe(q, got)
+        common.require_decision(ctx, got, want, 'redefine:stale-default',
+                                detail={'config': config, 'how': how,
+                                        'query': q})
+    got = common.decision(ctx, enf, 'a', {})
+    common.require_decision(ctx, got, _leaf('a'), 'redefine:defined-name',
+                            detail={'config': config, 'how': how})
+    ctx.cover('redefine:' + how)
+
+
+def cubes_redefine(tier, seed):
+    return [{'config': c, 'how': h}
+            for c in ('unset', 'ctor-name', 'option-name')
+            for h in ('set_rules-update', 'item-assignment', 'delete',
+                      'set_rules-overwrite')]
+
+
 def _raise_mode(enf, q):
     from oslo_policy import policy
     try:
@@ -119,9 +168,11 @@ def cubes_table(tier, seed):
     return [{'config': c, 'body': b} for c in CONFIGS for b in bodies]
 
 
-HARNESSES = {'table': {'fn': run_table, 'cubes': cubes_table}}
+HARNESSES = {'table': {'fn': run_table, 'cubes': cubes_table},
+             'redefine': {'fn': run_redefine, 'cubes': cubes_redefine}}
 REQUIRED_COVER = ['defined', 'empty-store', 'default-object',
-                  'default-name-defined', 'no-usable-default']
+                  'default-name-defined', 'no-usable-default',
+                  'redefine:item-assignment', 'redefine:set_rules-update']
 
 
 def evidence(tier):
